@@ -19,6 +19,34 @@ def register():
             GENS.setdefault(pid, []).append(m)
 
 
+def gen_closure(pid):
+    """names of the coq/gen files reachable from coq/props/<pid>.v through Require lines"""
+    import re
+    coq = os.path.join(VERIF, "coq")
+    todo, seen, gens = [os.path.join(coq, "props", pid + ".v")], set(), set()
+    while todo:
+        f = todo.pop()
+        if f in seen or not os.path.exists(f):
+            continue
+        seen.add(f)
+        txt = open(f).read()
+        for m in re.finditer(r"\bVerif\.(lib|gen|props)\.([A-Za-z0-9_]+)", txt):
+            if m.group(1) == "gen":
+                gens.add(m.group(2) + ".v")
+            else:
+                todo.append(os.path.join(coq, m.group(1), m.group(2) + ".v"))
+        # `From Verif.lib Require Import A B.` / `From Verif Require Import lib.A gen.B.`
+        for m in re.finditer(r"From\s+Verif(?:\.(lib|gen|props))?\s+Require\s+(?:Import|Export)?\s*([^.]*(?:\.[A-Za-z0-9_]+[^.]*)*)\.\s", txt):
+            d, names = m.group(1), m.group(2).split()
+            for n in names:
+                dd, nn = (d, n) if d else (n.split(".")[0], n.split(".")[-1]) if "." in n else (None, n)
+                if dd == "gen":
+                    gens.add(nn + ".v")
+                elif dd in ("lib", "props"):
+                    todo.append(os.path.join(coq, dd, nn + ".v"))
+    return gens
+
+
 def main():
     ap = argparse.ArgumentParser()
     ap.add_argument("--only")
@@ -29,6 +57,19 @@ def main():
         if a.only in (None, pid):
             for m in ms:
                 if m not in mods:
+                    mods.append(m)
+    if a.only:
+        # every generated file in the import closure of props/<Cnn>.v is regenerated too, whichever
+        # generator declares it: models are shared between properties, and a check must never build
+        # against a generated file that was translated from an older source
+        need = gen_closure(a.only)
+        seen = set()
+        for ms in GENS.values():
+            for m in ms:
+                if m in seen:
+                    continue
+                seen.add(m)
+                if m not in mods and need & set(getattr(m, "OUTPUTS", [])):
                     mods.append(m)
     rc = 0
     for m in mods:
